@@ -305,8 +305,12 @@ class EIpuAcquisitionFunction(MeanStdAcquisitionFunction):
         dh_dstd_active = _postprocess_gradient(-phi * inv_cost_power, nf=1)
         # Flip the sign twice: once because of the derivative of 1 / x, and
         # once because the head is actually - f_ei
+        # Where the predicted cost is capped at ``MIN_COST``, the head does not
+        # depend on it
+        cost_not_capped = output_to_predictions[self.cost_metric]["mean"] > MIN_COST
         dh_dmean_cost = _postprocess_gradient(
-            self.exponent_cost * f_acqu / pred_cost, nf=nf_cost
+            np.where(cost_not_capped, self.exponent_cost * f_acqu / pred_cost, 0.0),
+            nf=nf_cost,
         )
 
         gradient = {
